@@ -2120,6 +2120,9 @@ fn find_required_sections<'data, A: Arch>(
             );
         }
     }
+    // Errors were recorded in the order in which threads happened to encounter them. Sort them so
+    // that which one we report doesn't depend on thread scheduling.
+    errors.sort_by_cached_key(|e| std::cmp::Reverse(e.to_string()));
     // TODO: Figure out good way to report more than one error.
     if let Some(error) = errors.pop() {
         return Err(error);
